@@ -9,7 +9,7 @@ EXTENDS Array3D, Sequences
 
 MCExts == {<<2, 1, 2>>, <<1, 2, 1>>, <<2, 2, 1>>}
 MCExtsThorough == {<<2, 1, 2>>, <<1, 2, 1>>, <<2, 2, 1>>, <<1, 3, 2>>, <<3, 1, 1>>}
-LawsView == <<arr, made>>
+LawsView == <<arr, made, extmem>>
 GenExts == {<<2, 1, 2>>, <<1, 2, 1>>}
 GenExtsThorough == {<<2, 1, 2>>, <<1, 2, 1>>, <<1, 2, 2>>}
 \* negative control (must be VIOLATED): reading a negative z of a MultiSlice over all planes as the LAST
